@@ -7,35 +7,51 @@
   `p = renderC (ds ++ [n])`, `marker p = "/.whiteout" ++ p ++ "_wo"`, the union view `view`.
 
   PROVED (no sorry, no axiom):
-  * `removed_file_absent`      after a successful `remove_file(p)`: the upper layer holds
-                               `marker p` (an empty file), `view p = none`, `exists` is false,
-                               `metadata` and `open_file` fail with not-found; the lower leaf's
-                               map is unchanged. Likewise `removed_dir_absent` for `remove_dir`.
-                               `removeFile_succeeds`: sufficient conditions for the success.
-  * `removed_stays_absent_frame` (`marker_hides`): a marker hides its path whatever else changes;
-    `marker_inj`, `clearWhiteout_only_erases_marker`; and the operations that keep a marker:
-    `marker_survives_createDir/createFile/removeFile/removeDir/write_session/openFile` — every
-    mutating overlay method called at a path `q ≠ p` (and `q ≠ marker p`, i.e. not reaching into
-    the reserved ".whiteout" namespace) keeps `marker p`, hence `view p = none`
-    (`removed_stays_absent`).
-  * `recreated_file_fresh`     `create_file(p)?.write_all(bs)` over a marked path: the marker is
-                               gone and `view p` is a file holding exactly `bs`.
-  * `recreated_dir_empty`      `create_dir(p)` over a marked path whose lower-layer children are
-                               all marked (any number of them): afterwards `p` is a directory of
-                               the view and `read_dir(p)` is `[]`.
-  * `markers_invisible`        the root listing never contains ".whiteout"; a listed name is
-                               never a name whose marker exists; (`wo_names_can_appear`: a name
-                               `x_wo` IS listed in a non-root directory when a layer really has
-                               such an entry — reserved names are outside the property).
-  * non-vacuity (`decide`): remove_file then exists false, re-create gives fresh bytes, the
-    markers directory is not listed; and the OPEN known finding
-    `remove_file_on_lower_dir_orphans`: `remove_file("/d")` on a lower-layer DIRECTORY succeeds,
-    afterwards `view "/d" = none` but `view "/d/x" ≠ none` (the Rust code does exactly this;
-    the existing test `read_dir_removed_entries`-style behaviour pins it).
+  * `removed_file_absent`      after a successful `remove_file(p)`: only the upper leaf changed
+                               (the lower leaf still holds `ml`), the upper map holds `marker p`
+                               (an empty file), `view p = none`, `exists` is false, `metadata` and
+                               `open_file` fail with not-found. `removed_dir_absent`: the same for
+                               `remove_dir`. `removeFile_succeeds` / `pRemoveFile_result`:
+                               sufficient conditions for the success, and the resulting upper map.
+  * `removed_stays_absent_frame` (= `marker_hides`): while `marker p` is in the upper map, `p` is
+    absent from the view, whatever else changed in either map; `marker_inj`;
+    `clearWhiteout_only_erases_marker`; and which operations keep a marker:
+    `marker_survives_createDir / createFile / removeFile / removeDir / write_session / openFile`
+    — every such overlay call at a path `q ≠ p` (for the removals: `q ≠ marker p`, i.e. not
+    reaching into the reserved ".whiteout" namespace) keeps `marker p`; `removed_stays_absent`
+    puts it together for `exists`.
+  * `recreated_file_fresh`     on a state where `p` is marked (marker a file, nothing at `p` in
+                               the upper layer, whatever the lower layer holds): the write session
+                               `create_file(p)?.write_all(bs)` succeeds, removes the marker, and
+                               `view p` is a file holding exactly `bs`.
+    `remove_then_recreate_fresh`  the composition from an ARBITRARY state in which `p` is a file
+                               of the view: `remove_file(p)`, then the write session — the view
+                               serves exactly `bs`.
+  * `recreated_dir_empty`      on a state where `p` is marked and every child of `p` that the
+                               lower layer holds is marked too (any number of children):
+                               `create_dir(p)` succeeds, `p` is a directory of the view again and
+                               `read_dir(p) = []`.
+  * `markers_invisible`        whatever `read_dir` returns: never ".whiteout" at the root, and
+                               never a name whose marker exists. `wo_names_can_appear`: a name
+                               `y_wo` IS listed in a non-root directory when a layer really holds
+                               such an entry (reserved names are outside the property).
+  * non-vacuity (`decide`, section `concrete`, on the world of C09): remove_file then exists
+    false / listing empty / ".whiteout" not listed / lower layer untouched; unrelated create_dir
+    later: still absent; re-created file holds the fresh byte; remove_dir + create_dir gives an
+    empty directory; and the OPEN known finding `remove_file_on_lower_dir_orphans`:
+    `remove_file("/d")` on a lower-layer DIRECTORY succeeds, afterwards `view "/d" = none` but
+    `view "/d/x" ≠ none` and "/d/x" is still readable (the Rust code does exactly this).
 
-  STATED, NOT PROVED:
-  * `marker_survives_appendFile_stmt` — the frame lemma for `append_file(q)`, `q ≠ p` (the
-    copy-up path is only computed for the case used in C09).
+  Hypotheses excluding reserved names (each one corresponds to a real quirk of the code):
+  `(ds ++ [n]).head? ≠ some woDir` (paths inside "/.whiteout"), `ds.head? ≠ some woSuffix` (a
+  top-level directory called "_wo": removing below it creates "/.whiteout/_wo", the root marker),
+  `hwoarea` (no FILE where the bookkeeping needs a directory).
+
+  STATED, NOT PROVED (as `def … : Prop`):
+  * `marker_survives_appendFile_stmt` — the frame lemma for `append_file(q)`, `q ≠ p`;
+  * `recreated_dir_empty_composed_stmt` — the composition remove child, remove dir, create dir
+    from an arbitrary state (the three steps are proved separately: `removed_file_absent`,
+    `removed_dir_absent`, `recreated_dir_empty`; the composition is checked on the concrete world).
 -/
 import VfsModel.Props.C09
 set_option linter.unusedSimpArgs false
@@ -487,6 +503,127 @@ theorem recreated_file_fresh (ds : List Str) (n : Str) (hds : ∀ c ∈ ds, Good
   rw [hpure] at h3 ⊢
   simp only [Res.map, run_writeAllAndDrop h3.hu, World.setLeafFiles_twice]
 
+omit h in
+theorem take_head_ne {ds : List Str} {j : Nat} (h1 : 1 ≤ j) (hd : ds.head? ≠ some woDir) :
+    (ds.take j).head? ≠ some woDir := by
+  cases ds with
+  | nil => simp
+  | cons d ds =>
+    obtain ⟨i, rfl⟩ : ∃ i, j = i + 1 := ⟨j - 1, by omega⟩
+    simpa using hd
+
+/-- **remove, then re-create: only the new bytes.** `p` is a file of the view (in either layer).
+`remove_file(p)` succeeds; a following write session `create_file(p)?.write_all(bs)` succeeds;
+afterwards the marker is gone and the view serves `p` as a file holding exactly `bs` — nothing of
+the old content, although the lower layer still has the old file. -/
+theorem remove_then_recreate_fresh (ds : List Str) (n : Str) (hds : ∀ c ∈ ds, GoodComp c)
+    (hn : GoodComp n) (hroot : RootOk mu) (hanc : AncDirs mu ml ds)
+    (hhead : (ds ++ [n]).head? ≠ some woDir) (hsuf : ds.head? ≠ some woSuffix)
+    (hwoarea : ∀ k ∈ chain [] (woDir :: ds), ∀ e, mu.find? k = some e → e.ftype = .dir)
+    (e : Entry) (hv : view mu ml (renderC (ds ++ [n])) = some e) (hfile : e.ftype = .file)
+    (bs : Bytes) :
+    ∃ w1 w2 mu2 e',
+      (Overlay.fs (layers2 u l idu idl)).removeFile (renderC (ds ++ [n])) w = (.ok (), w1) ∧
+      (do let hd ← (Overlay.fs (layers2 u l idu idl)).createFile (renderC (ds ++ [n]))
+          hd.writeAllAndDrop bs : M Unit) w1 = (.ok (), w2) ∧
+      OW w2 u l mu2 ml ∧ mu2.contains (marker (renderC (ds ++ [n]))) = false ∧
+      view mu2 ml (renderC (ds ++ [n])) = some e' ∧ e'.ftype = .file ∧ e'.content = bs := by
+  have hcs := good_snoc hds hn
+  have hne : ds ++ [n] ≠ [] := by simp
+  have hns := good_noSlash hcs
+  have hdns := good_noSlash hds
+  have hdhead : ds.head? ≠ some woDir := by
+    intro hd; apply hhead
+    cases ds with
+    | nil => simp at hd
+    | cons d ds => simpa using hd
+  obtain ⟨mu1, hpure, ⟨em, hem, hemf⟩, hp1, hframe⟩ :=
+    pRemoveFile_result mu ml ds n hds hn hroot hwoarea hhead e hv hfile
+  have h1 := h.setU mu1
+  have hrun : (Overlay.fs (layers2 u l idu idl)).removeFile (renderC (ds ++ [n])) w
+      = (.ok (), w.setLeafFiles u mu1) := by
+    show Overlay.removeFile _ _ w = _
+    rw [run_oremoveFile h _ hne hcs, hpure]
+  -- the root of the new upper map
+  have hroot1 : RootOk mu1 := by
+    obtain ⟨e0, he0, hd0⟩ := hroot.root
+    have hpne : renderC (ds ++ [n]) ≠ [] := renderC_ne_nil hne
+    constructor
+    · refine ⟨e0, ?_, hd0⟩
+      rw [hframe [] (fun h' => hpne h'.symm) (by simp [marker])
+        (fun hk => by
+          obtain ⟨i, h1, _, he⟩ := (mem_chain [] (woDir :: ds) _).1 hk
+          obtain ⟨i', rfl⟩ : ∃ i', i = i' + 1 := ⟨i - 1, by omega⟩
+          simp at he)]
+      exact he0
+    · have hrm : rootMarker = renderC [woDir, woSuffix] := by simp [rootMarker]
+      have hrns : ∀ c ∈ [woDir, woSuffix], '/' ∉ c := by decide
+      unfold FMap.contains
+      rw [hframe rootMarker ?_ ?_ ?_]
+      · exact hroot.noMark
+      · rw [hrm]; intro heq
+        have := C06.renderC_injective _ _ hrns hns heq
+        apply hhead; rw [← this]; rfl
+      · rw [hrm, marker_renderC]; intro heq
+        have := C06.renderC_injective _ _ hrns (good_noSlash (good_markerComps hds hn)) heq
+        simp only [List.cons.injEq, true_and] at this
+        cases ds with
+        | nil =>
+          exact hn.1 (by simpa using this)
+        | cons d ds =>
+          have hl := congrArg List.length this
+          simp at hl
+      · rw [hrm]; intro hk
+        obtain ⟨i, hi1, hi2, he⟩ := (mem_chain [] (woDir :: ds) _).1 hk
+        simp only [List.nil_append] at he
+        have := C06.renderC_injective _ _ hrns (by
+          intro c hc
+          rcases List.mem_cons.1 (List.mem_of_mem_take hc) with rfl | hc
+          · exact goodComp_woDir.noSlash
+          · exact hdns c hc) he
+        obtain ⟨i', rfl⟩ : ∃ i', i = i' + 1 := ⟨i - 1, by omega⟩
+        simp only [List.take_succ_cons, List.cons.injEq, true_and] at this
+        apply hsuf
+        cases ds with
+        | nil => simp at this
+        | cons d ds =>
+          cases i' with
+          | zero => simp at this
+          | succ i'' => simp at this; simp [this.1]
+  -- the ancestors are still directories of the view
+  have hanc1 : AncDirs mu1 ml ds := by
+    intro j hj1 hj2
+    obtain ⟨ea, hva, hda⟩ := hanc j hj1 hj2
+    refine ⟨ea, ?_, hda⟩
+    have hqns : ∀ c ∈ ds.take j, '/' ∉ c := fun c hc => hdns c (List.mem_of_mem_take hc)
+    have hqhead := take_head_ne hj1 hdhead
+    have hq1 : renderC (ds.take j) ≠ renderC (ds ++ [n]) := by
+      intro heq
+      have := congrArg List.length (C06.renderC_injective _ _ hqns hns heq)
+      rw [List.length_take, List.length_append, List.length_singleton] at this
+      omega
+    have hqh : (renderC (ds.take j)).head? = some '/' := by
+      apply C09.renderC_head
+      intro h0
+      have := congrArg List.length h0
+      rw [List.length_take, List.length_nil] at this
+      omega
+    have hq2 : renderC (ds.take j) ≠ marker (renderC (ds ++ [n])) := fun heq =>
+      hqhead (renderC_eq_marker_head _ _ hqns heq (C09.renderC_head _ hne))
+    have hq3 : renderC (ds.take j) ∉ chain [] (woDir :: ds) := fun hk =>
+      hqhead (chain_wo_head _ _ hqns hdns hk)
+    have hm1 : marker (renderC (ds.take j)) ≠ renderC (ds ++ [n]) := fun heq =>
+      hhead (renderC_eq_marker_head _ _ hns heq.symm hqh)
+    have hm2 : marker (renderC (ds.take j)) ≠ marker (renderC (ds ++ [n])) := fun heq =>
+      hq1 (marker_injective _ _ heq)
+    have hm3 := marker_prefix_not_in_chain ds hds j hj1 hj2
+    rw [← hva]
+    unfold view FMap.contains
+    rw [hframe _ hq1 hq2 hq3, hframe _ hm1 hm2 hm3]
+  obtain ⟨w2, mu2, e', hrun2, hw2, hgone, hv2, hf2, hc2⟩ :=
+    recreated_file_fresh (idu := idu) (idl := idl) h1 ds n hds hn hroot1 hanc1 hdhead em bs hem hemf hp1
+  exact ⟨_, w2, mu2, e', hrun, hrun2, hw2, hgone, hv2, hf2, hc2⟩
+
 /-- **a re-created directory is empty.** `p` is marked as deleted, the upper layer has nothing at
 or below `p`, and every child of `p` that the lower layer still holds is marked as deleted too
 (it was removed through the overlay before `p` was): `create_dir(p)` succeeds, `p` is again a
@@ -710,6 +847,27 @@ def marker_survives_appendFile_stmt : Prop :=
       renderC cs ≠ marker p →
       ∃ r w' mu' ml', (Overlay.fs (layers2 u l idu idl)).appendFile (renderC cs) w = (r, w') ∧
         OW w' u l mu' ml' ∧ mu'.contains (marker p) = true
+
+/-- stated, not proved: remove the only lower-layer child, remove the directory, create it again:
+the new directory is empty -/
+def recreated_dir_empty_composed_stmt : Prop :=
+  ∀ (w : World) (u l idu idl : Nat) (mu ml : FMap), OW w u l mu ml → WF mu → WF ml → RootOk mu →
+  ∀ (ds : List Str) (n x : Str), (∀ c ∈ ds, GoodComp c) → GoodComp n → GoodComp x →
+    AncDirs mu ml ds → (ds ++ [n]).head? ≠ some woDir → ds.head? ≠ some woSuffix →
+    (∀ k, (woDirOf []).isPrefixOf k = true → mu.find? k = none) →
+    mu.find? (renderC (ds ++ [n])) = none →
+    (∀ y, '/' ∉ y → mu.find? (renderC (ds ++ [n]) ++ '/' :: y) = none) →
+    (∃ e, ml.find? (renderC (ds ++ [n])) = some e ∧ e.ftype = .dir) →
+    (∀ y, '/' ∉ y → (ml.contains (renderC (ds ++ [n]) ++ '/' :: y) = true ↔ y = x)) →
+    (∃ e, ml.find? (renderC (ds ++ [n, x])) = some e ∧ e.ftype = .file) →
+    let fs := Overlay.fs (layers2 u l idu idl)
+    let w1 := (fs.removeFile (renderC (ds ++ [n, x])) w).2
+    let w2 := (fs.removeDir (renderC (ds ++ [n])) w1).2
+    let w3 := (fs.createDir (renderC (ds ++ [n])) w2).2
+    (fs.removeFile (renderC (ds ++ [n, x])) w).1 = .ok () ∧
+    (fs.removeDir (renderC (ds ++ [n])) w1).1 = .ok () ∧
+    (fs.createDir (renderC (ds ++ [n])) w2).1 = .ok () ∧
+    (fs.readDir (renderC (ds ++ [n])) w3).1 = .ok []
 
 /-! ### non-vacuity: the concrete world of Props/C09.lean
 
